@@ -26,7 +26,7 @@ def pb (s : String) : Bool := s == "1"
 
 def parseKind : List String → Option Kind
   | ["S", u, n] => do some (.service (← parseHex u) (← n.toNat?))
-  | ["D", u, a, b, c, d] => do some (.charDecl (← parseHex u) (pb a) (pb b) (pb c) (pb d))
+  | ["D", u, a, b, c, d, au] => do some (.charDecl (← parseHex u) (pb a) (pb b) (pb c) (pb d) (← au.toNat?))
   | ["B", cell, size, r, w, _, _] => do some (.bound (← cell.toNat?) (← size.toNat?) (pb r) (pb w))
   | ["F", v, r, _, _, _] => do some (.fixed (← parseHex v) (pb r))
   | ["C", v, _, _, nr, _] => do some (.cstring (← parseHex v) (pb nr))
